@@ -257,8 +257,8 @@ func c13RollbackCorpus() []any {
 			{Kind: "upgrade", Reset: f[0], Reuse: f[1], RTR: f[2], Chart: c13Chart("c", d2), Vals: vtree{"t": vtree{"y": "u5"}}},
 			{Kind: "rollback", Version: 2, Fails: true}, // revision 6 = revision 2, failed: 5 stays deployed
 			{Kind: "upgrade", Reset: f[0], Reuse: f[1], RTR: f[2], Chart: c13Chart("c", d3), Vals: vtree{"k": nil, "extra": "e"}, Fails: true},
-			{Kind: "upgrade", Reset: f[0], Reuse: f[1], RTR: f[2], Chart: c13Chart("c", d3), Vals: vtree{}},
-			{Kind: "rollback", Version: 3}, // to the FAILED revision 3 (chart d3)
+			{Kind: "upgrade", Reset: f[0], Reuse: f[1], RTR: f[2], Chart: c13Chart("c", d2), Vals: vtree{}},
+			{Kind: "rollback", Version: 3}, // to the FAILED revision 3 (chart d3, while a revision with chart d2 is deployed)
 			{Kind: "upgrade", Reuse: true, Chart: c13Chart("c", d1), Vals: vtree{"b": int64(1)}},
 		}})
 	}
